@@ -272,11 +272,12 @@ func checkDefs() map[string]*CheckDef {
 				return []RunSpec{
 					{Name: "stage-order", Pkg: prc, Entry: "VerifC18Order", Params: map[string]int{"EXTRA": tierPick(tier, 1, 2)}, MustCover: []string{"sorted"}},
 					{Name: "expression-data-flow", Pkg: prc, Entry: "VerifC18Expr", MustCover: []string{"evaluated", "literal text before the expression"}},
+					{Name: "numeric-expression-family", Pkg: prc, Entry: "VerifC18ExprNumbers", MustCover: []string{"numeric expression evaluated", "boolean result"}},
 					{Name: "validation-glue", Pkg: prc, Entry: "VerifC18Validate", Params: map[string]int{"N": tierPick(tier, 3, 4)}, MustCover: []string{"constraint violated", "constraint satisfied"}},
 				}
 			},
 			LevelText: "Bounded symbolic model checking of the glue in go-kid/ioc's own code: (a) the nine real processor objects plus extra user processors of symbolic class and 64-bit Order are sorted by the real SortOrderedComponents and configQuote < expression < {value, properties} < validate always holds; (b) real configQuote then expression then value processors on pre #{e1 ${k} e2} post: the text compiled is exactly the substituted text and the field receives pre+result+post; (c) the real validate processor fails exactly when the validator rejects the bound value, for fields with and without a validate argument, required and optional.",
-			LevelNote: "Reduced claim: what expr-lang computes and which values go-playground/validator rejects are outside - expr.Compile/Run is an uninterpreted injective function of the text, the validator's verdict an uninterpreted function of (value, constraint) except required/min/max on ASCII strings. Natively the same harness uses the real libraries (sampled paths are replayed).",
+			LevelNote: "Reduced claim: what expr-lang computes and which values go-playground/validator rejects are outside. On SYMBOLIC operands expr.Compile/Run is an uninterpreted injective function of the text and the validator's verdict an uninterpreted function of (value, constraint), except required/min/max/omitempty on ASCII strings, which are modelled; on CONCRETE operands the engine calls the real expr-lang and the real validator natively (they are linked into the engine), so the concrete expression family and concrete values are decided by the libraries themselves. Natively the same harness uses the real libraries on both sides (sampled paths are replayed).",
 			Technique: techDefault + "; third-party interpreters as uninterpreted functions", DesignRef: "DESIGN.md §3 C18"},
 	)
 	defs = append(defs,
